@@ -96,11 +96,11 @@ type vpEvent struct {
 }
 
 type vpHist struct {
-	sc      *vpScenario
-	stamp   int64
-	mu      sync.Mutex
-	recs    []*vpRec
-	unclean int32 // an acquire failed / an outcome was uncertain: wait-list observations and the final probe are not judged
+	sc       *vpScenario
+	stamp    int64
+	mu       sync.Mutex
+	recs     []*vpRec
+	unclean  int32 // an acquire failed / an outcome was uncertain: wait-list observations and the final probe are not judged
 	durMs    int64
 	deadline time.Time
 	diverged string // seq mode: the real system left the behaviour the model predicted (replay stopped there)
